@@ -15,7 +15,7 @@ RULE = {"C16": "threaded workload: a worker thread runs `with NotifierDelay(P) a
                "bodies: 0, <<P, P-1, P, P+1, several P, random.  Conversion sweep: every whole-microsecond period in the range "
                "(first programmed alarm == t0 + n).  Non-trivial = run with >=1 overrun and >=1 on-time wait; distinct = hash of "
                "(P, bodies)."}
-REQUIRED = {"C16": {"wait-on-time": 500, "wait-after-overrun": 100, "catch-up-wait": 50, "alarm-on-grid": 1000, "freed-wait-immediate": 50,
+REQUIRED = {"C16": {"released-before-the-first-wait": 3, "period-of-a-second-or-more": 3, "wait-on-time": 500, "wait-after-overrun": 100, "catch-up-wait": 50, "alarm-on-grid": 1000, "freed-wait-immediate": 50,
                     "release-observed": 50, "release-on-exception-exit": 10, "clock-around-2^32us": 5,
                     "conversion-period-checked": 5000}}
 ASSUMPTIONS = {"C16": ["the HAL simulator's waitForNotifierAlarm returns when the simulated clock reaches the programmed alarm (level-triggered)",
@@ -38,8 +38,10 @@ def gen_case(rng):
         P = rng.choice([1001, 1003, 15724, 1009, 2001, 4003, 33333, 16667, 99999])    # n/1e6 whose product falls below n
     else:
         P = rng.randrange(1000, 100001)
+    if rng.random() < 0.15:
+        P = rng.choice([1000000, 1500000, 2000000, 2500001, 1000001])      # a second and more (slow housekeeping loops)
     bodies = []
-    for _ in range(rng.choice([5, 15, 40])):
+    for _ in range(rng.choice([5, 15, 40]) if rng.random() > 0.1 else 0):      # sometimes released before the first wait()
         r = rng.random()
         if r < 0.25:
             b = 0
@@ -219,6 +221,10 @@ def run_threaded(acc, case):
         acc.violation("C16/not-released", f"after free()/with-exit the notifier calls were {rel}, expected one stop then one clean", case, {})
         return None
     acc.ev("release-observed")
+    if not bodies:
+        acc.ev("released-before-the-first-wait")
+    if P >= 1000000:
+        acc.ev("period-of-a-second-or-more")
     if case["use_with"] and case.get("exit_exc"):
         acc.ev("release-on-exception-exit")
     for j in range(case["after_free"]):
